@@ -109,7 +109,7 @@ pub trait SVDDecomposableMatrix<T: RealNumber>: BaseMatrix<T> {
                     scale += U.get(k, i).abs();
                 }
 
-                if scale.abs() > T::epsilon() {
+                if scale != T::zero() {
                     for k in i..m {
                         U.div_element_mut(k, i, scale);
                         s += U.get(k, i) * U.get(k, i);
@@ -145,7 +145,7 @@ pub trait SVDDecomposableMatrix<T: RealNumber>: BaseMatrix<T> {
                     scale += U.get(i, k).abs();
                 }
 
-                if scale.abs() > T::epsilon() {
+                if scale != T::zero() {
                     for k in l - 1..n {
                         U.div_element_mut(i, k, scale);
                         s += U.get(i, k) * U.get(i, k);
@@ -213,7 +213,7 @@ pub trait SVDDecomposableMatrix<T: RealNumber>: BaseMatrix<T> {
                 U.set(i, j, T::zero());
             }
 
-            if g.abs() > T::epsilon() {
+            if g != T::zero() {
                 g = T::one() / g;
                 for j in l..n {
                     let mut s = T::zero();
@@ -327,7 +327,7 @@ pub trait SVDDecomposableMatrix<T: RealNumber>: BaseMatrix<T> {
 
                     z = f.hypot(h);
                     w[j] = z;
-                    if z.abs() > T::epsilon() {
+                    if z != T::zero() {
                         z = T::one() / z;
                         c = f * z;
                         s = h * z;
